@@ -41,14 +41,18 @@ import py2lean  # noqa: E402
 INTS = [-(10 ** 12) - 7, -(2 ** 31) - 1, -1001, -501, -130, -101, -100, -65, -51, -50, -14, -13, -7, -5, -4, -3, -2, -1, 0, 1, 2, 3,
         4, 5, 6, 7, 12, 13, 14, 19, 20, 21, 30, 31, 58, 59, 64, 89, 90, 99, 100, 101, 255, 500, 501, 1000, 1001, 2 ** 31, 10 ** 12 + 7]
 SMALL = [-101, -100, -7, -3, -1, 0, 1, 2, 3, 7, 13, 50, 99, 100, 499, 600, 1001]
+INT_LISTS = [[], [4], [-3, 0, 9], [1, 2, 3, 5, 8], [7, 7], [2, -1, 100]]
+LIST_LISTS = [[], [[]], [[1, 2], [3]], [[1, 2], [], [2, 5]], [[9], [0, -4, 8]], [[3, 4, 5, 6, 7]]]
+PAIR_LISTS = [[], [(2, 3)], [(-1, 4), (5, -6), (0, 7)], [(1, 1), (2, 2), (3, 3), (4, 4), (100, -100)]]
 NODE_LISTS = [[], [(3, 30)], [(-5, 7), (1, 10), (5, 50)], [(-9, 1), (-4, 2), (-3, 3), (0, 4), (2, 5), (4, 6), (9, 8), (100, 9)]]
 EXC = {"SkippedTimeError": "skippedTime", "AmbiguousTimeError": "ambiguousTime", "ValueError": "valueError", "OverflowError": "overflowError", "ZeroDivisionError": "zeroDivision", "IndexError": "indexError",
-       "KeyError": "keyError", "RuntimeError": "runtimeError", "TypeError": "typeError", "NotImplementedError": "notImplemented"}
+       "KeyError": "keyError", "RuntimeError": "runtimeError", "TypeError": "typeError", "NotImplementedError": "notImplemented",
+       "InvalidPyodaDataError": "invalidData"}
 
 
 def atoms(ty):
     """number of integer/bool atoms a parameter of type `ty` is built from"""
-    return 2 if ty in ("Vec", "Holder", "Span") else 1
+    return 2 if ty in ("Vec", "Holder", "Span", "RdSeed", "?Int") else 1
 
 
 def grid(types, rng, custom=None):
@@ -63,6 +67,16 @@ def grid(types, rng, custom=None):
             pools.append([(a, b) for a in SMALL for b in (-500, -3, 0, 2, 99, 500)])
         elif t == "Span":
             pools.append([(a, b) for a in (-700, -101, -7, 0, 3, 50, 99) for b in (-650, -8, -7, 0, 2, 5, 60, 120, 1001)])
+        elif t == "RdSeed":  # the Reader state built by Reader.make(a, b) / mkRd a b
+            pools.append([(a, b) for a in (-7, 0, 1, 2, 5, 77, 130, 255) for b in range(0, 13)])
+        elif t == "?Int":  # (present?, value)
+            pools.append([(0, 0)] + [(1, v) for v in (-9, 0, 4, 1000)])
+        elif t == "Pairs":
+            pools.append([(i,) for i in range(len(PAIR_LISTS))])
+        elif t == "IntList":
+            pools.append([(i,) for i in range(len(INT_LISTS))])
+        elif t == "IntLists":
+            pools.append([(i,) for i in range(len(LIST_LISTS))])
         elif t == "Nodes":  # one of the fixed sorted lists of nodes
             pools.append([(i,) for i in range(len(NODE_LISTS))])
         elif t == "StoreSeed":  # the dict {i: seed * i + (i & 1) for i in range(8)}
@@ -170,7 +184,7 @@ def run(keep=False) -> dict:
             if t.d.get("selftest_skip"):
                 continue  # result type cannot be rendered (an object); exercised through its callers
             # Lean argument order: abstract callees, instance-attribute parameters, the dict attribute, the parameters
-            allp = list(t.extra_params) + ([("store'", "StoreSeed")] if t.dstate else []) + list(t.lean_params())
+            allp = list(t.extra_params) + ([("store'", "StoreSeed")] if t.dstate else []) + ([("st'", "RdSeed")] if t.mstate else []) + list(t.lean_params())
             types = [ty for _, ty in allp]
             cg = t.d.get("selftest_grid")  # e.g. {"b": [..]}: inputs for parameters whose size drives the running time
             custom = [cg.get(n) if cg else None for n, _ in allp]
@@ -197,6 +211,29 @@ def run(keep=False) -> dict:
                     names += [f"a{k}", f"a{k+1}"]
                     args.append(f"(⟨⟨fun x => a{k} * x + 1, fun v l => ckv v (-l) l⟩, a{k+1}⟩ : Holder)")
                     k += 2
+                elif ty == "RdSeed":
+                    names += [f"a{k}", f"a{k+1}"]
+                    args.append(f"({(t.d.get('selftest_state') or {}).get('lean_mk', 'mkRd')} a{k} a{k+1})")
+                    k += 2
+                elif ty == "?Int":
+                    names += [f"a{k}", f"a{k+1}"]
+                    args.append(f"(if a{k} = 0 then (none : Option Int) else some a{k+1})")
+                    k += 2
+                elif ty == "Pairs":
+                    names.append(f"a{k}")
+                    alts = " ".join(f"| {i} => [{', '.join(f'({lean_lit(a)}, {lean_lit(b)})' for a, b in l)}]" for i, l in enumerate(PAIR_LISTS))
+                    args.append(f"((match a{k} with {alts} | _ => []) : List (Int × Int))")
+                    k += 1
+                elif ty == "IntList":
+                    names.append(f"a{k}")
+                    alts = " ".join(f"| {i} => [{', '.join(lean_lit(a) for a in l)}]" for i, l in enumerate(INT_LISTS))
+                    args.append(f"((match a{k} with {alts} | _ => []) : List Int)")
+                    k += 1
+                elif ty == "IntLists":
+                    names.append(f"a{k}")
+                    alts = " ".join(f"| {i} => [{', '.join('[' + ', '.join(lean_lit(a) for a in l) + ']' for l in ll)}]" for i, ll in enumerate(LIST_LISTS))
+                    args.append(f"((match a{k} with {alts} | _ => []) : List (List Int))")
+                    k += 1
                 elif ty == "Nodes":
                     names.append(f"a{k}")
                     alts = " ".join(f"| {i} => #[{', '.join(f'⟨{lean_lit(a)}, {lean_lit(b)}⟩' for a, b in l)}]" for i, l in enumerate(NODE_LISTS))
@@ -216,9 +253,15 @@ def run(keep=False) -> dict:
                     k += 1
             fargs = t.d.get("selftest_fargs") or ["(fun x => 3 * x - 2)" for _ in t.fun_params]   # abstract callee of the self-test: w x = 3*x - 2
             call = " ".join([t.lean_name] + fargs + args) if (args or fargs) else t.lean_name
+            if t.d.get("selftest_then"):   # slices of one procedure: this one, then the next, is the whole function
+                nxt = " ".join([t.d["selftest_then"]] + fargs + args)
+                call = f"(do let _ ← ({call} : R Unit); ({nxt} : R Unit))"
             if t.dstate and t.dstate["mode"] == "rw":  # (result, final dict): the result and the values under the keys 0 … 8
                 inner = lean_show(t.ret, "v.1") + ' ++ " " ++ toString ((List.range 9).map (fun (i : Nat) => (v.2 (i : Int)).getD (-999)))'
                 shown = f"Pyoda.showR (fun v => {inner}) ({call})"
+            elif t.mstate and t.mstate.get("mode", "rw") == "rw":  # (result, final state of the object)
+                inner = lean_show(t.ret, "v.1") + ' ++ " | " ++ ' + (t.d.get("selftest_state") or {}).get("lean_show", "showRd") + ' v.2'
+                shown = f"Pyoda.showR (fun v => {inner}) ({call})" if t.raises else f"(let v := {call}; {inner})"
             else:
                 shown = f"Pyoda.showR (fun v => {lean_show(t.ret, 'v')}) ({call})" if t.raises else lean_show(t.ret, f"({call})")
             pat = "[" + ", ".join(names) + "]" if names else "_"
@@ -260,8 +303,8 @@ def run(keep=False) -> dict:
                 lean_out[cur].append(ln)
         # the Python side
         sys.path.insert(0, str(ROOT))
-        mod = importlib.import_module("corpus.sample")
-        Vec = mod.Vec
+        mods = {"corpus/sample.py": importlib.import_module("corpus.sample"), "corpus/stateful.py": importlib.import_module("corpus.stateful")}
+        Vec = mods["corpus/sample.py"].Vec
         for t, types, combos in plan:
             got = lean_out.get(t.lean_name, [])
             if len(got) != len(combos):
@@ -269,11 +312,12 @@ def run(keep=False) -> dict:
                 res["errors"].append({"function": t.lean_name, "error": f"{len(got)} Lean results for {len(combos)} inputs"})
                 continue
             bad = 0
+            mod = mods[t.file]
             for c_in, l_res in zip(combos, got):
-                args = [[mod.Node(a, b) for a, b in NODE_LISTS[p[0]]] if ty == "Nodes" else Vec._ctor(x=p[0], y=p[1]) if ty == "Vec" else mod.Span._ctor(lo=p[0], hi=p[1]) if ty == "Span" else mod.Holder(mod.LinearScaler(p[0]), p[1]) if ty == "Holder" else p[0]
+                args = [list(INT_LISTS[p[0]]) if ty == "IntList" else [list(x) for x in LIST_LISTS[p[0]]] if ty == "IntLists" else PAIR_LISTS[p[0]] if ty == "Pairs" else (None if p[0] == 0 else p[1]) if ty == "?Int" else getattr(mod, (t.d.get("selftest_state") or {}).get("py_class", "Reader")).make(p[0], p[1]) if ty == "RdSeed" else [mod.Node(a, b) for a, b in NODE_LISTS[p[0]]] if ty == "Nodes" else Vec._ctor(x=p[0], y=p[1]) if ty == "Vec" else mod.Span._ctor(lo=p[0], hi=p[1]) if ty == "Span" else mod.Holder(mod.LinearScaler(p[0]), p[1]) if ty == "Holder" else p[0]
                         for ty, p in zip(types, c_in)]
                 pnames = [n for n, _ in t.lean_params()]
-                nextra = len(t.extra_params) + (1 if t.dstate else 0)
+                nextra = len(t.extra_params) + (1 if t.dstate else 0) + (1 if t.mstate else 0)
                 extra_vals, args = args[:nextra], args[nextra:]
                 store = None
                 if t.dstate:
@@ -281,7 +325,14 @@ def run(keep=False) -> dict:
                     store = {i: seed * i + (i & 1) for i in range(8)}
                     setattr(getattr(mod, t.cls), f"_{t.cls}{t.dstate['attr'].split('.')[-1]}", store)
                 try:
-                    if t.lambda_params:  # a factory returning a lambda: f(args)(lambda args)
+                    if t.mstate:  # a method of an object with mutable state: call it on the object built from the seed
+                        obj = extra_vals[-1]
+                        if t.mstate.get("py_param"):   # the state object is a parameter of a classmethod / function
+                            fn_ = getattr(getattr(mod, t.cls), t.function) if t.cls else getattr(mod, t.function)
+                            r = fn_(**{t.mstate["py_param"]: obj}, **dict(zip(pnames, args)))
+                        else:
+                            r = getattr(obj, t.function) if t.kind == "property" else getattr(obj, t.function)(**dict(zip(pnames, args)))
+                    elif t.lambda_params:  # a factory returning a lambda: f(args)(lambda args)
                         nf = len(pnames) - len(t.lambda_params)
                         r = getattr(mod, t.function)(*args[:nf])(*args[nf:])
                     elif t.cls is None:
@@ -318,6 +369,8 @@ def run(keep=False) -> dict:
                                 obj = cls()
                             r = getattr(obj, t.function)(**dict(zip(pnames, args)))
                     p_res = py_show(r)
+                    if t.mstate and t.mstate.get("mode", "rw") == "rw":
+                        p_res += " | " + obj.show()
                     if t.dstate and t.dstate["mode"] == "rw":
                         p_res += " [" + ", ".join(str(store.get(i, -999)) for i in range(9)) + "]"
                 except Exception as e:  # noqa: BLE001
